@@ -228,14 +228,22 @@ def capture (pat : Pat) (path : Str) : Option Str :=
 /-- `uri.partition("?")[0]` -/
 def pathOfTarget (target : Str) : Str := target.takeWhile (· != cQuestion)
 
-/-- a whole GET request: routing, argument decoding, `StaticFileHandler.get` -/
+/-- `field-vchar` of the request-line grammar (`httputil._ABNF.request_target` = `[\x21-\x7e\x80-\xff]+`) -/
+def vchar (c : Nat) : Bool := (0x21 ≤ c && c ≤ 0x7e) || (0x80 ≤ c && c ≤ 0xff)
+
+/-- the request line `GET <target> HTTP/1.1` is accepted by `parse_request_start_line`; otherwise the connection answers 400 -/
+def validTarget (t : Str) : Bool := !t.isEmpty && t.all vchar
+
+/-- a whole GET request: request line, routing, argument decoding, `StaticFileHandler.get` -/
 def handle (cfg : Cfg) (pat : Pat) (target : Str) (fs : Str → Kind) : Resp × List Q :=
-  let path := pathOfTarget target
-  match capture pat path with
-  | none => (.notRouted, [])
-  | some g =>
-    match decodeArg g with
-    | none => (.badRequest, [])
-    | some p => serve cfg path p fs
+  if ¬ validTarget target then (.badRequest, [])
+  else
+    let path := pathOfTarget target
+    match capture pat path with
+    | none => (.notRouted, [])
+    | some g =>
+      match decodeArg g with
+      | none => (.badRequest, [])
+      | some p => serve cfg path p fs
 
 end TornadoModel.C26
